@@ -5,7 +5,7 @@ VARIABLE l
 Ev == Trace[l]
 TraceNext == /\ l <= Len(Trace) /\ l' = l + 1
              /\ \/ Ev.ev = "poly" /\ FrameOK(Ev)
-                \/ Ev.ev \in {"basis", "factor", "peval", "pevalmod"}
+                \/ Ev.ev \in {"basis", "factor", "peval", "pevalmod", "chebapx"}
 TraceInit == l = 1 /\ TLCSet(1, 1)
 TraceSpec == TraceInit /\ [][TraceNext]_l
 Progress == TLCSet(1, IF TLCGet(1) > l THEN TLCGet(1) ELSE l)
